@@ -1153,7 +1153,11 @@ fn run_c13_verbatim_real(seed: u64, rep: &mut RealReport) {
         for (i, e) in exprs.iter().enumerate() {
             let e = e.to_string();
             let other = exprs[(i + 7) % exprs.len()].to_string();
-            let third = exprs[g.below(exprs.len() as u64) as usize].to_string();
+            // (not drawn from the seed: which expressions meet in one document is the same in
+            // every run - an interplay between two of them is then seen at once, not under one
+            // seed in twenty)
+            let third = exprs[(i + 13) % exprs.len()].to_string();
+            let _ = &mut g;
             cases.push(ExprCase { real_history: false, real_expr: true, script_mode, exprs: vec![e.clone()] });
             cases.push(ExprCase { real_history: false, real_expr: true, script_mode, exprs: vec![e.clone(), other.clone(), third.clone()] });
             cases.push(ExprCase { real_history: false, real_expr: true, script_mode, exprs: vec![other, third, e] });
@@ -1166,7 +1170,7 @@ fn run_c13_verbatim_real(seed: u64, rep: &mut RealReport) {
     // LATER ones do - IFS, shell options, the directory - may only stand last. With VERIF_SEED=1
     // `IFS=0123456789` was drawn in front of `echo $((x*2))`, whose `10` then - rightly, the
     // state carries - came out as a blank: a false alarm of this lane, found by `vp check`.)
-    let changes_later_ones = |e: &str| e.contains("IFS=") || e.contains("set -") || e.contains("unset ") || e.contains("cd /") || e.contains("rm -rf");
+    let changes_later_ones = |e: &str| e.contains("IFS=") || e.contains("set -") || e.contains("unset ") || e.contains("cd /") || e.contains("rm -rf") || e.contains("readonly ") || e.contains("declare -r");
     cases.retain(|c| c.exprs.iter().enumerate().all(|(i, e)| i + 1 == c.exprs.len() || !changes_later_ones(e)));
     let _ = std::fs::create_dir_all(format!("{}/replays", crate::out_dir()));
     let mut reported = 0;
